@@ -117,7 +117,9 @@ def c17(tier):
                                  "explicit-two-extensions"):
                     if out_mode.startswith("explicit-") and out_mode != "explicit-relative" and spelling not in ("absolute", "bare-name"):
                         continue
-                    for pre in ("absent", "shorter", "longer"):
+                    for pre in ("absent", "shorter", "longer", "same-size"):
+                        if pre == "same-size" and not should_ok:
+                            continue            # (a size to match exists only where output is expected)
                         case += 1
                         base = os.path.join(root, f"case{case}")
                         indir = os.path.join(base, "proj", "in.d")      # a dot in a directory name must not matter
@@ -192,6 +194,11 @@ def c17(tier):
                         elif pre == "longer":
                             with open(out_abs, "wb") as f:
                                 f.write(b"// previous long output\n" + b"// stale line\n" * (new_len // 10 + 5000))
+                        elif pre == "same-size":
+                            # exactly as many bytes as the new output will have, other content (an earlier version of the schema
+                            # with a renamed member): nothing about the old file says that it is out of date
+                            with open(out_abs, "wb") as f:
+                                f.write((b"// previous output of the same size\n" + b"#" * new_len)[:new_len])
                         before_sha = _sha(out_abs)
                         before_list = _listing(base)
                         cmd = [zeep, "--input", arg] + (["--output", out_arg] if out_arg else [])
@@ -289,7 +296,7 @@ def c17(tier):
                 "binding) x 6 path spellings/working directories (a symbolic link in another directory under another name with linked siblings, absolute from an unrelated cwd, dir/name from the parent, ./name and bare "
                 "name from the input directory, ../in/name from a sibling directory) x output {--output absolute, --output relative to cwd, "
                 "default; for two of the spellings also --output with another extension, with none and with two, each next to a "
-                "hand-written file of the name that replacing the extension by .rs would give} x pre-existing output {absent, shorter, longer}. Every cell is one run of the built binary in a fresh scratch tree; "
+                "hand-written file of the name that replacing the extension by .rs would give} x pre-existing output {absent, shorter, longer, exactly as long as the new output}. Every cell is one run of the built binary in a fresh scratch tree; "
                 "distinct_nontrivial = distinct cells run. Oracles: exit status, output bytes == library bytes (zdrive on the same directory), "
                 "no stale tail, no stray files, failing runs leave a pre-existing output byte-identical; plus, for every succeeding scenario, four "
                 "ways in which the output cannot be written (missing parent directory, the path is a directory, /dev/full, the default path is "
